@@ -6,12 +6,14 @@ import (
 	"fmt"
 	"math"
 	"math/big"
+	"math/rand"
 	"reflect"
 	"strings"
 	"time"
 
 	"github.com/amzn/ion-go/ion"
 
+	"verifh/gen"
 	"verifh/ionx"
 	"verifh/model"
 	"verifh/refbin"
@@ -75,6 +77,11 @@ var unValues = []string{
 	"0", "1", "-1", "127", "128", "-128", "-129", "255", "256", "32767", "32768", "-32768", "-32769", "65535", "65536",
 	"2147483647", "2147483648", "-2147483648", "-2147483649", "4294967295", "4294967296",
 	"9223372036854775807", "9223372036854775808", "-9223372036854775808", "-9223372036854775809", "18446744073709551615", "18446744073709551616", "-18446744073709551616",
+	// the same boundaries in the other radixes and with digit grouping
+	"0x7F", "0x80", "-0x80", "-0x81", "0xFF", "0x100", "0x7fff", "0x8000", "0xFFFF_FFFF", "0x1_0000_0000", "-0x8000_0000", "-0x80000001",
+	"0x7FFFFFFFFFFFFFFF", "0x8000000000000000", "-0x8000000000000000", "-0x8000000000000001", "0xffffffffffffffff", "0x10000000000000000", "-0x10000000000000000",
+	"0b111111111111111111111111111111111111111111111111111111111111111", "0b1000000000000000000000000000000000000000000000000000000000000000",
+	"-0b1000000000000000000000000000000000000000000000000000000000000000", "0b1111111111111111111111111111111111111111111111111111111111111111", "9_223_372_036_854_775_808", "-0b1000_0000", "0b1111_1111",
 	"0e0", "-0e0", "1.5e0", "3.4028234663852886e38", "3.4028235677973366e38", "-3.5e38", "1e39", "1e-50", "1.7976931348623157e308", "nan", "+inf", "-inf", "16777217e0",
 	"0.", "-0.", "1.5", "-1234567890123456789012345678901234567890d-5", "1d100",
 	"2020T", "2020-02-29T12:34:56.789+05:30", "0001-01-01T00:00:00-00:00", "9999-12-31T23:59:59.999999999Z",
@@ -601,6 +608,69 @@ func runC17(c *Ctx) {
 			}
 		}
 	}
+	// structured targets: a random Go value's Ion image, spelled by the reference producers (fields
+	// in another order, any legal spelling/encoding), unmarshalled into a fresh value of that type
+	ng := c.N(2500, 80000)
+	c.Parallel(ng, func(w, i int) {
+		cs := c.Seed*17_000_023 + int64(i)
+		r := rand.New(rand.NewSource(cs))
+		var t reflect.Type
+		if i%2 == 0 {
+			t = staticTypes[i/2%len(staticTypes)]
+		} else {
+			t = genType(r, 3)
+		}
+		v := reflect.New(t).Elem()
+		fillValue(r, v, 3, false)
+		for _, bin := range []bool{false, true} {
+			verdict, shown := func() (verdict, shown string) {
+				defer func() {
+					if rec := recover(); rec != nil {
+						verdict = "panic: " + ionx.PanicSite(rec)
+					}
+				}()
+				image, ok := imageOf(v, "", !bin)
+				if !ok || !gen.TopLevelOK(image) {
+					return "", ""
+				}
+				image = image.Clone()
+				model.Walk([]*model.Value{image}, func(n *model.Value, _ int) {
+					if n.Kind == model.Struct && len(n.Kids) > 1 {
+						r.Shuffle(len(n.Kids), func(a, b int) { n.Kids[a], n.Kids[b] = n.Kids[b], n.Kids[a] })
+					}
+				})
+				rk := ReadCase{CaseSeed: cs, Binary: bin, P: 0.2, Vals: []*model.Value{image}}
+				data, unordered, _, err := rk.render()
+				if err != nil || rk.selfCheck(data, unordered) != "" {
+					return "", ""
+				}
+				shown = showInput(bin, data)
+				c.Eval(1)
+				back := reflect.New(t)
+				if err := ion.Unmarshal(data, back.Interface()); err != nil {
+					return "Unmarshal of the value's own Ion image failed: " + err.Error(), shown
+				}
+				// an interface{} may come back with another dynamic type for the same data (a padded
+				// binary int arrives as *big.Int)
+				normIfaceInts(back.Elem())
+				if d := equalGo(v, back.Elem(), "v", false); d != "" {
+					return "Unmarshal of the value's own Ion image stored something else: " + d, shown
+				}
+				if t.Kind() == reflect.Struct || t.Kind() == reflect.Slice || t.Kind() == reflect.Map || t.Kind() == reflect.Ptr {
+					c.NonTrivial(fmt.Sprintf("img|%v|%s", bin, shown))
+				}
+				return "", shown
+			}()
+			if verdict != "" {
+				fam := "text"
+				if bin {
+					fam = "binary"
+				}
+				c.Violate("image-into-type", fam+":"+kindShape(t, 0)+":"+Class(verdict), fmt.Sprintf("type=%s value=%s input=%s :: %s", trunc200(t.String()), trunc200(fmt.Sprintf("%+v", v.Interface())), shown, verdict),
+					map[string]interface{}{"case_seed": cs, "index": i, "binary": bin, "go_type": trunc200(t.String()), "input": shown}, nil)
+			}
+		}
+	})
 	c.Sample(map[string]interface{}{"cell": "Unmarshal(\"-129\", *int8) must be an error; Unmarshal(\"ann::1\", *wrapInt) must give {1 [ann]}"})
 	c.Sample(map[string]interface{}{"values": unValues[:20], "targets": names[:20]})
 	_ = time.Now
@@ -609,7 +679,7 @@ func runC17(c *Ctx) {
 
 func init() {
 	Register(&Monitor{ID: "C17", Run: func(c *Ctx) {
-		c.Rule = "exhaustive matrix of Ion values x Go target types x {text, binary} x {Unmarshal, UnmarshalString, Decoder.DecodeTo}, each cell classified from the documented mapping as must-succeed-faithfully / must-error (overflow, sign, float32 overflow, symbol without text into string, type mismatch) / if-no-error-then-faithful / open (no panic only); the stored Go value is compared with the Ion value through its Ion image; Decoder streams must yield exactly their values and then ErrNoInput repeatedly. Every cell is off-diagonal or at a boundary by construction; distinct by cell."
+		c.Rule = "exhaustive matrix of Ion values x Go target types x {text, binary} x {Unmarshal, UnmarshalString, Decoder.DecodeTo}, each cell classified from the documented mapping as must-succeed-faithfully / must-error (overflow, sign, float32 overflow, symbol without text into string, type mismatch) / if-no-error-then-faithful / open (no panic only); the stored Go value is compared with the Ion value through its Ion image; Decoder streams must yield exactly their values and then ErrNoInput repeatedly; random Go values of random and catalogued types (deep embedding, named kinds, tags) whose Ion image is spelled by the reference producers with fields reordered and then unmarshalled into a fresh value of the type, which has to come out equal. Every cell is off-diagonal or at a boundary by construction; distinct by cell."
 		c.Assume("open cells (null into non-nillable targets, lobs/lists into arrays of another length, float into Decimal, struct into a wrapper-shaped struct, the README's []string annotations field) only demand the absence of a panic")
 		runC17(c)
 	}, Replay: func(c *Ctx, v *Violation) string {
